@@ -136,7 +136,20 @@ static void d_case(uint64_t idx, void *vctx)
     pixman_glyph_cache_freeze(d_cache);
     pixman_glyph_t pg[3]; int bx[3], by[3];
     for (int i = 0; i < n; i++) {
-        const void *g = pixman_glyph_cache_insert(d_cache, (void *)(uintptr_t)0x77, (void *)(uintptr_t)(i + 1), d_gorigin[i][0], d_gorigin[i][1], gimg[i]);
+        const void *g;
+        if ((idx + (uint64_t)i) & 1) {
+            /* the caller's image owns storage the library allocated; after the insert the caller reuses it (pixels inverted, made repeating) and drops it:
+             * the cache entry must be a copy taken at insert time */
+            pixman_format_code_t f = d_gf[gfi[i]]; int w = d_gsize[i][0], h = d_gsize[i][1];
+            pixman_image_t *ins = pixman_image_create_bits(f, w, h, NULL, 0);
+            uint8_t *data = (uint8_t *)pixman_image_get_data(ins); int st = pixman_image_get_stride(ins), rowb = (w * PIXMAN_FORMAT_BPP(f) + 7) / 8;
+            for (int y = 0; y < h; y++) memcpy(data + (size_t)y * (size_t)st, (uint8_t *)gbuf[i] + (size_t)y * (size_t)gsw[i] * 4, (size_t)rowb);
+            g = pixman_glyph_cache_insert(d_cache, (void *)(uintptr_t)0x77, (void *)(uintptr_t)(i + 1), d_gorigin[i][0], d_gorigin[i][1], ins);
+            for (int y = 0; y < h; y++) for (int b = 0; b < rowb; b++) data[(size_t)y * (size_t)st + (size_t)b] ^= 0xff;
+            pixman_image_set_repeat(ins, PIXMAN_REPEAT_NORMAL);
+            pixman_image_unref(ins);
+        } else
+            g = pixman_glyph_cache_insert(d_cache, (void *)(uintptr_t)0x77, (void *)(uintptr_t)(i + 1), d_gorigin[i][0], d_gorigin[i][1], gimg[i]);
         vf_count_libcalls(1);
         if (!g) { vf_violation("c17-draw-insert-failed", "%s: insert of glyph %d into an empty default-size cache returned NULL", desc, i); }
         /* the glyph box lands at d_pos in destination coordinates: box = dest_xy + (x,y) - origin */
